@@ -58,7 +58,7 @@ def run_p(seed, tier, replay=None):
             violations.append({"what": f"{mon[1]} (events {','.join(mon[2])}; init/max-fail {q.split(' ')[1:3]})",
                                "payload": {"stream": o[:2], "line_index": o[2], "initial_run_count": q.split(" ")[1], "max_fail": q.split(" ")[2], "events": mon[2], "what": mon[1], "request": q, "impl": i}, "kind": "monitor"})
             continue
-        d = disp.first_diff(q, i, m, ["response", "reply", "emitted", "cancel", "delivered", "broadcast", "panic"])
+        d = disp.first_diff(q, i, m, ["response", "reply", "emitted:start-cancel", "cancel", "delivered", "broadcast", "panic"])
         if d:
             k, f, a, b, evs = d
             # emitted/response/reply/cancel/delivered are what the property speaks about
